@@ -1,1 +1,53 @@
-fn main() {}
+//! Checks on ruma-state-res (+ ruma-events power-level helpers): C06-C09, C20.
+use ruma_common::{room_version_rules::RoomVersionRules, RoomVersionId};
+use serde_json::Value;
+use vf_engine::Check;
+
+mod c08;
+mod c09;
+mod ev;
+mod refauth;
+
+/// Rules for room version "1".."11", obtained through the public id -> rules mapping.
+pub fn rules_for(version: u8) -> RoomVersionRules {
+    RoomVersionId::try_from(version.to_string().as_str()).expect("version id").rules().expect("known version has rules")
+}
+
+/// Decode base64 in either alphabet, padded or not.
+pub fn b64_any(s: &str) -> Option<Vec<u8>> {
+    vf_ref::hash::b64_decode(s, false).or_else(|| vf_ref::hash::b64_decode(s, true))
+}
+
+/// Canonical JSON of a `signed` object without `signatures` and `unsigned` (reference encoder).
+pub fn canonical_signed(signed: &Value) -> Vec<u8> {
+    match vf_ref::cjson::V::from_serde(signed) {
+        Some(vf_ref::cjson::V::Obj(m)) => vf_ref::cjson::canon_without(&m, &["signatures", "unsigned"]),
+        _ => vec![],
+    }
+}
+
+pub fn ed25519_public(seed: &[u8; 32]) -> [u8; 32] {
+    use ring::signature::KeyPair as _;
+    ring::signature::Ed25519KeyPair::from_seed_unchecked(seed).expect("seed").public_key().as_ref().try_into().expect("32 bytes")
+}
+pub fn ed25519_sign(seed: &[u8; 32], msg: &[u8]) -> Vec<u8> {
+    ring::signature::Ed25519KeyPair::from_seed_unchecked(seed).expect("seed").sign(msg).as_ref().to_vec()
+}
+pub fn ed25519_verify(public: &[u8], msg: &[u8], sig: &[u8]) -> bool {
+    ring::signature::UnparsedPublicKey::new(&ring::signature::ED25519, public).verify(msg, sig).is_ok()
+}
+
+fn main() {
+    let args: Vec<String> = std::env::args().skip(1).collect();
+    let id = args.first().cloned().unwrap_or_default();
+    let mut ck = Check::from_env(&id, &args[1.min(args.len())..]);
+    match id.as_str() {
+        "C08" => c08::run(&mut ck),
+        "C09" => c09::run(&mut ck),
+        _ => {
+            eprintln!("vf-stateres: unknown property {id}");
+            std::process::exit(2);
+        }
+    }
+    ck.finish()
+}
